@@ -636,8 +636,8 @@ class Effects:
     def _site_conds(self, fa, n):
         """constant conditions on parameters that dominate node n: ((param, 'None'|repr const, truth)...)"""
         conds = []
-        for test, truth in fa.cfg.facts_at(n):
-            tm = fa.term(test.ast, test)
+        from .guards import facts_at as _facts
+        for tm, truth, test in _facts(fa, n):
             c = _param_const_cond(tm)
             if c is not None:
                 conds.append((c[0], c[1], c[2] if truth else not c[2]))
